@@ -48,28 +48,29 @@ class KeySys(HSystem):
     def __init__(self, a):
         self.a = a
         bl = H.blocklen(a)
+        self.bufkeys = [ramp(20, 3, 1), expander(20, 5)]
         self.keys = {'short': b'key', 'exact': ramp(bl, 7, 1), 'long': expander(bl + 9, 3), 'empty': b'', 'long2': ramp(2 * bl, 9, 4)}
 
     def fresh(self):
         from crysp.hmac import HMAC
-        return {'o': HMAC(H.make(self.a), self.keys['short']), 'key': 'short'}
+        return {'o': HMAC(H.make(self.a), self.keys['short']), 'key': 'short', 'buf': bytearray(20)}
 
     def canon(self, o):
-        return (o['key'], bytes(o['o'].K))
+        return (o['key'], bytes(o['o'].K), bytes(o['buf']))
 
     def events(self, o):
-        return [('setkey', k) for k in self.keys] + [('mac', 0), ('mac', 1), ('setkey-same-bytearray', 'short'), ('setkey-same-bytearray', 'long')]
+        return [('setkey', k) for k in self.keys] + [('mac', 0), ('mac', 1), ('setkey-buf', 0), ('setkey-buf', 1), ('scribble-buf',)]
 
     def apply(self, o, ev):
-        if ev[0] == 'setkey-same-bytearray':
-            # the caller keeps one mutable key buffer, overwrites it in place and sets it again
-            buf = o.setdefault('buf', bytearray(b'\x11' * len(self.keys[ev[1]])))
-            if len(buf) != len(self.keys[ev[1]]):
-                buf = o['buf'] = bytearray(b'\x11' * len(self.keys[ev[1]]))
-                o['o'].setkey(buf)
-            buf[:] = self.keys[ev[1]]
-            o['key'] = ev[1]
-            return o['o'].setkey(buf)
+        if ev[0] == 'setkey-buf':
+            # the caller keeps ONE mutable key buffer for the whole history, overwrites it in place and sets it again
+            o['buf'][:] = self.bufkeys[ev[1]]
+            o['key'] = ('buf', ev[1])
+            return o['o'].setkey(o['buf'])
+        if ev[0] == 'scribble-buf':
+            # ... or overwrites it without telling the HMAC object: the key in use must not follow
+            o['buf'][:] = b'\xee' * len(o['buf'])
+            return None
         if ev[0] == 'setkey':
             o['key'] = ev[1]
             return o['o'].setkey(self.keys[ev[1]])
@@ -78,8 +79,8 @@ class KeySys(HSystem):
     def judge(self, ctx, hist, ev, res, o):
         if ev[0] == 'mac':
             m = [b'message', ramp(H.blocklen(self.a) + 3, 3, 3)][ev[1]]
-            ctx.eq('C13/%s/mac-after-setkey-sequence' % self.a, res, ('ok', rfc2104(self.a, self.keys[o['key']], m)))
-        else:
+            ctx.eq('C13/%s/mac-after-setkey-sequence' % self.a, res, ('ok', rfc2104(self.a, self.keys[o['key']] if not isinstance(o['key'], tuple) else self.bufkeys[o['key'][1]], m)))
+        elif ev[0] != 'scribble-buf':
             ctx.eq('C13/%s/setkey' % self.a, res[0], 'ok')
 
 
